@@ -13,6 +13,7 @@ package main
 import (
 	"fmt"
 	"reflect"
+	"regexp"
 	"strings"
 
 	. "verif/harness/hlib"
@@ -51,6 +52,9 @@ func shapeNoPos(r *rec) string {
 	go_(r)
 	return b.String()
 }
+
+// a variadic call whose last argument ends with a number literal: `f(a, 5...)`
+var reNumDots = regexp.MustCompile(`[0-9A-Fa-f_]\.\.\.\)$`)
 
 func nodeShape(n ast.Node) (s string) {
 	if m := PanicText(func() { s = shapeNoPos(serialize(n, &serializer{ids: newIDs()})) }); m != "" {
@@ -444,26 +448,37 @@ func init() {
 				y2, err := hook.ParseExpr([]byte(ys), tmpl)
 				if err != nil || y2 == nil || nodeShape(y2) != shapeNoPos(y) {
 					blame, bs = y.kind, ys
-					// the operand whose parentheses are lost
+					// classify the known ways in which String loses the structure
+					class := 0
+					if y.kind == "Call" && reNumDots.MatchString(ys) {
+						blame, class = "number-literal-before-dot-ambiguous", 3
+					}
 					for _, k := range y.kids {
-						for _, ch := range k.kids {
+						for i, ch := range k.kids {
 							if !ch.isNode {
 								continue
 							}
 							op := ch.kind == "BinaryOperator" || ch.kind == "UnaryOperator"
-							switch {
-							case ch.kind == "Default":
-								blame = "drops-parens-of-default-operand"
-							case op && (k.name == "Func" || (k.name == "Expr" && y.kind != "UnaryOperator")):
-								blame = "drops-parens-of-operator-operand"
-							case (y.kind == "Selector" || y.kind == "TypeAssertion") && ch.kind == "BasicLiteral" && k.name == "Expr":
-								blame = "selector-on-number-literal-ambiguous"
-							case y.kind == "ChanType" && ch.kind == "ChanType":
-								blame = "chan-of-chan-ambiguous"
-							case ch.kind == "FuncType" || ch.kind == "ChanType":
-								if !strings.Contains(blame, "drops-parens") {
-									blame = y.kind + "-" + k.name + "-" + ch.kind
+							num := false
+							if ch.kind == "BasicLiteral" {
+								for _, sc := range ch.scal {
+									if sc.name == "Value" && sc.val != "" && sc.val[0] >= '0' && sc.val[0] <= '9' {
+										num = true
+									}
 								}
+							}
+							switch {
+							case num && ((y.kind == "Selector" || y.kind == "TypeAssertion") && k.name == "Expr" ||
+								y.kind == "Call" && k.name == "Args" && i == len(k.kids)-1 && strings.HasSuffix(ys, "...)")):
+								blame, class = "number-literal-before-dot-ambiguous", 3
+							case class < 2 && ch.kind == "Default":
+								blame, class = "drops-parens-of-default-operand", 2
+							case class < 2 && op && (k.name == "Func" || (k.name == "Expr" && y.kind != "UnaryOperator")):
+								blame, class = "drops-parens-of-operator-operand", 2
+							case class < 2 && y.kind == "ChanType" && ch.kind == "ChanType":
+								blame, class = "chan-of-chan-ambiguous", 2
+							case class < 1 && (ch.kind == "FuncType" || ch.kind == "ChanType"):
+								blame, class = y.kind+"-"+k.name+"-"+ch.kind, 1
 							}
 						}
 					}
